@@ -14,7 +14,7 @@ RULE = ('the C05 generator (2-5 chains on a 1/4-Angstrom lattice with distances 
         'start at a common number), the same number with a different residue name inside a chain, numbering that goes back, negative numbers. '
         'Every structure is run through get_contact_atoms(extend_to_residue=True) and through get_contact_residues with 2 cutoffs x all ordered chain '
         'pairs x the 8 combinations of only_backbone_atoms/excludeH/return_contact_pairs, and with allchains x the same 8; plus the malformed stream '
-        '(unknown chain, chain with itself, single-chain allchains, zero / negative cutoff) and the bundled 3CRO at 8.5 / 6.0 A (thorough: 3CRO_H, 1AK4). '
+        '(unknown chain, chain with itself, single-chain allchains, zero / negative cutoff) and the bundled 3CRO at 8.5 / 6.0 A (thorough: all chains of 3CRO, 3CRO_H, 1AK4 target). '
         'A case is counted non-trivial when its result is non-empty or an exception, distinct by (structure, arguments).')
 ASSUMPTIONS = list(c05.ASSUMPTIONS) + [
     'SQLite compares resSeq (INT column) with Python ints and resName / chainID (TEXT) with Python strs exactly (no affinity surprises for the generated values)',
@@ -27,11 +27,11 @@ def corpus(ctx):
 
 
 def cases(ctx):
-    out = c05.structure_cases(ctx, 'contact_atoms', ctx.scale(12, 200), family='extend', extends=(True,))
-    out += c05.structure_cases(ctx, 'contact_residues', ctx.scale(14, 200), family='residues')
+    out = c05.structure_cases(ctx, 'contact_atoms', ctx.scale(12, 90), family='extend', extends=(True,))
+    out += c05.structure_cases(ctx, 'contact_residues', ctx.scale(14, 90), family='residues')
     out += c05.malformed_cases(ctx, 'contact_residues', ctx.scale(4, 30))
     out += c05.file_cases(ctx, 'contact_atoms', extends=(True,))
-    out += c05.file_cases(ctx, 'contact_residues')
+    out += c05.file_cases(ctx, 'contact_residues', heavy=False)
     return out
 
 
